@@ -158,7 +158,7 @@ fn transport(kind: &str, data: &[u8], n: usize) -> String {
         }
         // activation by a foreign activator (systemd, libvarlink's `varlink --activate`, a multiplexing parent): it hands over
         // its own listening socket as descriptor 3, in whatever mode it used it itself (blocking, or O_NONBLOCK)
-        "foreignact" | "foreignactnb" => {
+        "foreignact" | "foreignactnb" | "foreignactidle" => {
             let path = format!("{}/fa-{}-{}.sock", tmpdir(), std::process::id(), n);
             let _ = std::fs::remove_file(&path);
             let l = std::os::unix::net::UnixListener::bind(&path).unwrap();
@@ -168,7 +168,12 @@ fn transport(kind: &str, data: &[u8], n: usize) -> String {
             let raw = l.as_raw_fd();
             let mut cmd = std::process::Command::new("sh");
             cmd.arg("-c")
-                .arg(format!("LISTEN_PID=$$ exec {} --listen0 'unix:{}'", actsrv(), path))
+                .arg(format!(
+                    "LISTEN_PID=$$ exec {} {} 'unix:{}'",
+                    actsrv(),
+                    if kind == "foreignactidle" { "--listen" } else { "--listen0" },
+                    path
+                ))
                 .env("LISTEN_FDS", "1")
                 .env_remove("LISTEN_FDNAMES")
                 .env_remove("VH_NOISY")
@@ -187,7 +192,8 @@ fn transport(kind: &str, data: &[u8], n: usize) -> String {
                 Ok(c) => c,
                 Err(e) => return format!("SPAWN-ERROR {}", e),
             };
-            drop(l);
+            // (foreignactidle: the activator keeps its socket, as systemd does, and the service instance ends by idle timeout)
+            let keep = if kind == "foreignactidle" { Some(l) } else { drop(l); None };
             // the service is up and waiting in accept() well before the first client arrives
             std::thread::sleep(Duration::from_millis(400));
             let addr = format!("unix:{}", path);
@@ -199,8 +205,22 @@ fn transport(kind: &str, data: &[u8], n: usize) -> String {
                         Ok(c2) => hex(&exchange(c2, b"{\"method\":\"org.varlink.service.GetInfo\"}\0")),
                         Err(e) => format!("err:{}", kind_of(&e)),
                     };
-                    let alive = matches!(child.try_wait(), Ok(None));
-                    format!("out={} again2={} alive={}", hex(&out), again, alive as u8)
+                    let mut alive = matches!(child.try_wait(), Ok(None));
+                    let mut extra = String::new();
+                    if keep.is_some() {
+                        // wait for the instance to idle out; the activator's socket file must outlive it
+                        let t = std::time::Instant::now();
+                        while t.elapsed() < Duration::from_secs(6) && matches!(child.try_wait(), Ok(None)) {
+                            std::thread::sleep(Duration::from_millis(50));
+                        }
+                        extra = format!(
+                            " exited={} sockfile={}",
+                            !matches!(child.try_wait(), Ok(None)) as u8,
+                            std::path::Path::new(&path).exists() as u8
+                        );
+                        alive = true;
+                    }
+                    format!("out={} again2={} alive={}{}", hex(&out), again, alive as u8, extra)
                 }
                 Err(e) => format!("out=- connect_err={} alive={}", kind_of(&e), matches!(child.try_wait(), Ok(None)) as u8),
             };
